@@ -173,6 +173,64 @@ func SymmetricEquality(p *core.Program, r *core.Report, rule string) {
 				}
 				return true
 			})
+			// the same, decided on paths: in a loop over one side's map, the comma-ok lookup in the other side's map is known
+			// to have succeeded wherever the body goes on to the next key (whatever the shape of the test: `if !ok {return
+			// false}`, `if !ok || !eq {return false}`, a switch)
+			if !missingIsUnequal {
+				var okVars []*types.Var
+				ast.Inspect(fd.Decl.Body, func(nd ast.Node) bool {
+					as, isAs := nd.(*ast.AssignStmt)
+					if !isAs || len(as.Lhs) != 2 || len(as.Rhs) != 1 {
+						return true
+					}
+					ix, isIx := ast.Unparen(as.Rhs[0]).(*ast.IndexExpr)
+					if !isIx || !(onField(ix.X, recv) || onField(ix.X, other)) {
+						return true
+					}
+					if id, isId := as.Lhs[1].(*ast.Ident); isId {
+						if v, isV := info.ObjectOf(id).(*types.Var); isV {
+							okVars = append(okVars, v)
+						}
+					}
+					return true
+				})
+				if len(okVars) > 0 {
+					w := facts.NewWalker(info)
+					all, seen := true, false
+					w.OnLoopBodyEnd = func(loop ast.Stmt, states uint64, f facts.Formula) {
+						rs, isRs := loop.(*ast.RangeStmt)
+						if !isRs || !(onField(rs.X, recv) || onField(rs.X, other)) {
+							return
+						}
+						seen = true
+						known := false
+						for _, v := range okVars {
+							if facts.Entails(f, facts.Atom("b:"+w.PathOfVar(v))) {
+								known = true
+							}
+						}
+						if !known && facts.Satisfiable(f) {
+							all = false
+						}
+					}
+					w.OnBranch = func(b *ast.BranchStmt, states uint64, f facts.Formula) {
+						if b.Tok != token.CONTINUE || len(w.Loops) == 0 {
+							return
+						}
+						known := false
+						for _, v := range okVars {
+							if facts.Entails(f, facts.Atom("b:"+w.PathOfVar(v))) {
+								known = true
+							}
+						}
+						if !known {
+							all = false
+						}
+					}
+					w.WalkBody(fd.Decl.Body, nil)
+					missingIsUnequal = seen && all
+				}
+			}
 			ok := deep || (lenCmp && (ranged[recv] || ranged[other]) && missingIsUnequal) || (ranged[recv] && ranged[other] && missingIsUnequal)
 			r.Check(ok, rule, fmt.Sprintf("%s: %s is compared in both directions", fd.Key(), core.RefName(f)), p.Pos(fd.Decl.Pos()), "DeepEqual, or equal lengths + lookup of every key, a missing key meaning unequal",
 				fmt.Sprintf("the comparison of %s is one-sided (no length comparison and no second loop, or a missing key is tolerated): a set that has an additional protocol/name compares equal to one that lacks it, so diff reports a real change as unchanged and A.Equal(B) != B.Equal(A)", core.RefName(f)))
@@ -205,6 +263,32 @@ func ClusterWideCondition(p *core.Program, r *core.Report, rule string) {
 	n := 0
 	w := facts.NewWalker(info)
 	w.Inline = true
+	// tests on a local that merely names a selector of the rule peer (nsSelector := rule.NamespaceSelector) are tests on that selector
+	w.Atomize = func(w *facts.Walker, e ast.Expr) facts.Formula {
+		be, ok := e.(*ast.BinaryExpr)
+		if !ok || (be.Op != token.EQL && be.Op != token.NEQ) {
+			return nil
+		}
+		x, y := ast.Unparen(be.X), ast.Unparen(be.Y)
+		if core.IsNil(info, x) || isConstZero(info, x) {
+			x, y = y, x
+		}
+		var at facts.Formula
+		switch {
+		case core.IsNil(info, y):
+			if u := Unfold(info, fd.Decl.Body, x); u != core.ExprStr(x) {
+				at = facts.Atom("nil:" + u)
+			}
+		case isConstZero(info, y):
+			if u := Unfold(info, fd.Decl.Body, x); u != core.ExprStr(x) {
+				at = facts.Atom("eq:" + u + "==0")
+			}
+		}
+		if at != nil && be.Op == token.NEQ {
+			return facts.MkNot(at)
+		}
+		return at
+	}
 	w.OnExpr = func(e ast.Expr, f facts.Formula) {
 		c, ok := e.(*ast.CallExpr)
 		if !ok {
@@ -259,4 +343,9 @@ func ClusterWideCondition(p *core.Program, r *core.Report, rule string) {
 	w.WalkBody(fd.Decl.Body, nil)
 	r.RuleCounts[rule] = n
 	r.Floor(rule, 2)
+}
+
+func isConstZero(info *types.Info, e ast.Expr) bool {
+	v, ok := constInt64(info, e)
+	return ok && v == 0
 }
